@@ -363,76 +363,67 @@ class DynGraph(nx.Graph):
             self._adj[v] = self.adjlist_inner_dict_factory()
             self._node[v] = {}
 
-        for idt in [t[0]]:
-            if self.has_edge(u, v) and not self.edge_removal:
-                continue
-            else:
-                if idt not in self.time_to_edge:
-                    self.time_to_edge[idt] = {(u, v, "+"): None}
-                else:
-                    if (u, v, "+") not in self.time_to_edge[idt]:
-                        self.time_to_edge[idt][(u, v, "+")] = None
-
         if e is not None and self.edge_removal:
-
             t[1] = e - 1
-            if e not in self.time_to_edge:
-                self.time_to_edge[e] = {(u, v, "-"): None}
-            else:
-                self.time_to_edge[e][(u, v, "-")] = None
+
+        def _add_event(idt, op):
+            # one event per pair, whatever the endpoint order of the calls
+            if idt not in self.time_to_edge:
+                self.time_to_edge[idt] = {}
+            if (v, u, op) not in self.time_to_edge[idt]:
+                self.time_to_edge[idt][(u, v, op)] = None
+
+        def _del_event(idt, op):
+            found = False
+            if idt in self.time_to_edge:
+                for key in ((u, v, op), (v, u, op)):
+                    if key in self.time_to_edge[idt]:
+                        del self.time_to_edge[idt][key]
+                        found = True
+                if not self.time_to_edge[idt]:
+                    del self.time_to_edge[idt]
+            return found
 
         # add the interaction
         datadict = self._adj[u].get(v, self.edge_attr_dict_factory())
 
-        if 't' in datadict:
-            app = datadict['t']
-            max_end = app[-1][1]
-
-            if max_end == app[-1][0] and t[0] == app[-1][0] + 1:
-
-                app[-1] = [app[-1][0], t[1]]
-                if app[-1][0] + 1 in self.time_to_edge and (u, v, "+") in self.time_to_edge[app[-1][0] + 1]:
-                    del self.time_to_edge[app[-1][0] + 1][(u, v, "+")]
-
-            else:
-                if t[0] <= max_end < t[1]:
-                    app[-1][1] = t[1]
-                    if max_end + 1 in self.time_to_edge:
-                        if self.edge_removal:
-                            del self.time_to_edge[max_end + 1][(u, v, "-")]
-                        del self.time_to_edge[t[0]][(u, v, "+")]
-
-                elif max_end == t[0] - 1:
-                    if max_end + 1 in self.time_to_edge and (u, v, "+") in self.time_to_edge[max_end + 1]:
-                        del self.time_to_edge[max_end + 1][(u, v, "+")]
-                        if self.edge_removal:
-                            if max_end + 1 in self.time_to_edge and (u, v, '-') in self.time_to_edge[max_end + 1]:
-                                del self.time_to_edge[max_end + 1][(u, v, '-')]
-                            if t[1] + 1 in self.time_to_edge:
-                                self.time_to_edge[t[1] + 1][(u, v, "-")] = None
-                            else:
-                                self.time_to_edge[t[1] + 1] = {(u, v, "-"): None}
-
-                    app[-1][1] = t[1]
-                else:
-                    app.append(t)
-        else:
+        if 't' not in datadict:
+            # first appearance of the pair
             datadict['t'] = [t]
-
-        if e is not None:
-            span = range(t[0], t[1] + 1)
-            for idt in span:
-                if idt not in self.snapshots:
-                    self.snapshots[idt] = 1
-                else:
-                    self.snapshots[idt] += 1
+            _add_event(t[0], "+")
+            if e is not None and self.edge_removal:
+                _add_event(e, "-")
+            covered = range(t[0], t[1] + 1)
         else:
-            for idt in t:
-                if idt is not None:
-                    if idt not in self.snapshots:
-                        self.snapshots[idt] = 1
-                    else:
-                        self.snapshots[idt] += 1
+            last = datadict['t'][-1]
+            max_end = last[1]
+            if t[0] > max_end + 1:
+                # a new run after a gap
+                datadict['t'].append(t)
+                if self.edge_removal:
+                    _add_event(t[0], "+")
+                    if e is not None:
+                        _add_event(e, "-")
+                covered = range(t[0], t[1] + 1)
+            elif t[1] > max_end:
+                # the span prolongs the last run: its closing event moves to the new end
+                was_closed = _del_event(max_end + 1, "-")
+                if self.edge_removal and (e is not None or was_closed or last[0] != max_end):
+                    _add_event(t[1] + 1, "-")
+                last[1] = t[1]
+                covered = range(max_end + 1, t[1] + 1)
+            else:
+                # the span is already contained in the last run
+                if self.edge_removal and e == max_end + 1:
+                    _add_event(e, "-")
+                covered = []
+
+        # two units per interaction and snapshot (see interactions_per_snapshots),
+        # counted once for every instant the interaction newly covers
+        if not self.edge_removal:
+            covered = [t[0]]
+        for idt in covered:
+            self.snapshots[idt] = self.snapshots.get(idt, 0) + 2
 
         self._adj[u][v] = datadict
         self._adj[v][u] = datadict
